@@ -139,6 +139,7 @@ class Subscriptions:
     def __init__(self, spec, views):
         self.spec = spec
         self.log = []
+        self.early = []
         self.mtypes = {}
         self.ptypes = {}
         for v in views:
@@ -175,6 +176,13 @@ class Subscriptions:
         def cb(entity, value):
             t = self.ptypes.get(key)
             self.log.append(['P', key, tag, entity.id, codec.canon_py(t, value) if t else repr(value)])
+            # what the subscriber can see: the entity it is handed already holds the value it is told about
+            try:
+                held = entity.properties['client'].get(key.split('_', 1)[1], self)
+                if held is not value and held != value:
+                    self.early.append([key, tag, entity.id])
+            except Exception:
+                pass
             if raises:
                 raise TypeError('recording callback asked to raise')
         return cb
@@ -285,6 +293,8 @@ def play_stream(dialect, definitions, views, stream, strict, subs_spec=None, eve
                 signal.signal(signal.SIGPROF, old_prof)
         out['world'] = dump_world(ctrl)
         out['log'] = subs.log
+        if subs.early:
+            out['early'] = subs.early
         if every:
             out['steps'] = steps
         return out
